@@ -21,6 +21,11 @@ def standard_pool(ctx, n_general, n_nested, n_long=0, tweak=None):
         scs.append(gen.gen_nested(ctx.seed * 1000033 + s))
     for s in range(n_long):
         scs.append(gen.gen_longhist(ctx.seed * 1000037 + s))
+    # every sixth scenario runs with a wall clock that jumps back between generations
+    crnd = random.Random(ctx.seed * 7 + 99)
+    for i, sc in enumerate(scs):
+        if i % 6 == 5:
+            gen.unsteady_clock(sc, crnd)
     if tweak:
         for sc in scs:
             tweak(sc)
